@@ -88,32 +88,40 @@ mod verif {
     }
 
     // ------------------------------------------------------------------ C30: scan_for_unescaped_delim
-    #[kani::proof]
-    #[kani::unwind(8)]
-    fn c30_scan_for_unescaped_delim() {
-        let al = ['\\', '"', 'a', '\n'];
-        let c = [pick(&al), pick(&al), pick(&al), pick(&al)];
-        let mut v = Vec::with_capacity(5);
-        v.push('"'); v.push(c[0]); v.push(c[1]); v.push(c[2]); v.push(c[3]);
-        let lx = mk_lexer(v);
-        let stop_nl: bool = kani::any();
-        let got = scan_for_unescaped_delim(&lx, 1, &['"'], stop_nl);
-        // reference: walk from offset 1; a backslash escapes the next char
-        let mut want: Option<usize> = None;
-        let mut p = 1;
-        let mut done = false;
-        while p < 5 && !done {
-            let ch = if p == 0 { '"' } else { c[p - 1] };
-            if stop_nl && ch == '\n' { done = true; }
-            else if ch == '\\' { p += 2; }
-            else if ch == '"' { want = Some(p); done = true; }
-            else { p += 1; }
-        }
-        assert!(got == want, "first delimiter that is not escaped by a backslash");
-        kani::cover!(matches!(want, Some(4)), "req: delimiter at the end");
-        kani::cover!(want.is_none() && c[3] == '"', "req: escaped final quote");
-        std::mem::forget(lx);
+    macro_rules! scan_harness {
+        ($name:ident, $delim:expr, $stop_nl:expr) => {
+            #[kani::proof]
+            #[kani::unwind(8)]
+            fn $name() {
+                let d: char = $delim;
+                let al = ['\\', d, 'a', '\n'];
+                let c = [pick(&al), pick(&al), pick(&al), pick(&al)];
+                let mut v = Vec::with_capacity(5);
+                v.push(d); v.push(c[0]); v.push(c[1]); v.push(c[2]); v.push(c[3]);
+                let lx = mk_lexer(v);
+                let stop_nl: bool = $stop_nl;
+                let got = scan_for_unescaped_delim(&lx, 1, &[d], stop_nl);
+                // reference: walk from offset 1; a backslash escapes the next char
+                let mut want: Option<usize> = None;
+                let mut p = 1;
+                let mut done = false;
+                while p < 5 && !done {
+                    let ch = c[p - 1];
+                    if stop_nl && ch == '\n' { done = true; }
+                    else if ch == '\\' { p += 2; }
+                    else if ch == d { want = Some(p); done = true; }
+                    else { p += 1; }
+                }
+                assert!(got == want, "first delimiter that is not escaped by a backslash");
+                kani::cover!(matches!(want, Some(4)), "req: delimiter at the end");
+                kani::cover!(want.is_none() && c[3] == d, "req: escaped final delimiter");
+                std::mem::forget(lx);
+            }
+        };
     }
+    scan_harness!(c30_scan_for_unescaped_delim_quote_line, '"', true);
+    scan_harness!(c30_scan_for_unescaped_delim_quote_multiline, '"', false);
+    scan_harness!(c30_scan_for_unescaped_delim_single_quote, '\'', false);
 
     // ------------------------------------------------------------------ C30: process_escapes_into
     fn format_stub(_a: std::fmt::Arguments<'_>) -> String {
